@@ -51,11 +51,13 @@ func init() {
 			n := a[1].(*Term)
 			o := s.newRaw(n, true, "vfBytes:"+strArg(a[0]))
 			o.Name = "in_" + strArg(a[0])
+			o.HavocName = s.uniqueName(strArg(a[0]))
 			return Slice{P: Ptr{Obj: o}, Len: n, Cap: n}, false
 		},
 		"vfU64s": func(s *State, fr *Frame, fn *ssa.Function, a []Value, d ssa.Value) (Value, bool) {
 			n := a[1].(*Term)
 			o := s.newRaw(Mul(n, Const(64, 8)), true, "vfU64s:"+strArg(a[0]))
+			o.HavocName = s.uniqueName(strArg(a[0]))
 			return Slice{P: Ptr{Obj: o}, Len: n, Cap: n}, false
 		},
 		"vfHavoc": func(s *State, fr *Frame, fn *ssa.Function, a []Value, d ssa.Value) (Value, bool) {
@@ -97,6 +99,7 @@ func init() {
 		},
 		"vfBegin": func(s *State, fr *Frame, fn *ssa.Function, a []Value, d ssa.Value) (Value, bool) {
 			s.begun = true
+			s.preempts = 0
 			if dest := d; dest != nil {
 				fr.locals[dest] = nil
 			}
@@ -139,6 +142,8 @@ func init() {
 				s.cfg.Ticks = v
 			case "first-range-in-order":
 				s.cfg.FirstRangeInOrder = v != 0
+			case "dpor":
+				s.cfg.DPOR = v != 0
 			case "now-monotone":
 				s.cfg.NowMonotone = v != 0
 			default:
@@ -159,6 +164,12 @@ func init() {
 				panic(execAbort{"unsupported", "vfReplace needs a function value"})
 			}
 			s.replFns[strArg(a[0])] = cl
+			return nil, false
+		},
+		"vfNative": func(s *State, fr *Frame, fn *ssa.Function, a []Value, d ssa.Value) (Value, bool) {
+			return False, false
+		},
+		"vfJitter": func(s *State, fr *Frame, fn *ssa.Function, a []Value, d ssa.Value) (Value, bool) {
 			return nil, false
 		},
 		"vfTier": func(s *State, fr *Frame, fn *ssa.Function, a []Value, d ssa.Value) (Value, bool) {
